@@ -51,6 +51,10 @@ REWRITE_RENAMES = [
     # fns whose external_body IS the original expression; their contracts (value 0 / 1) are Kani obligations
     ("N9", ["Fp", ":", ":", "ZERO"], ["v_fp_zero", "(", ")"]),
     ("N9", ["Fp", ":", ":", "ONE"], ["v_fp_one", "(", ")"]),
+    # N10 (unit ff, macro-expanded text): the limb helpers of the `ff` crate -> external_body wrappers whose body
+    # IS the original call; contracts discharged by the complete Kani harness k_ff_limb_helpers
+    ("N10", [":", ":", "ff", ":", ":", "derive", ":", ":", "mac"], ["ff_mac"]),
+    ("N10", [":", ":", "ff", ":", ":", "derive", ":", ":", "adc"], ["ff_adc"]),
 ]
 
 class FnRecord:
@@ -158,11 +162,21 @@ class Emitter:
                 # every top-level `const` item of the file, verbatim (visibility widened, attributes dropped):
                 # constants the verified bodies use - including ones a change introduces - come from the
                 # source, never from the template
-                rel = ln.split(None, 1)[1].strip()
+                parts = [x.strip() for x in ln.split(None, 1)[1].split("|")]
+                rel = parts[0]
                 F = self.file(rel)
+                items, names = F.items, None
+                for seg in parts[1:]:
+                    if seg.startswith("mod "):
+                        try:
+                            items = F.find([seg]).children
+                        except LookupError as e:
+                            raise EmitError("lost anchor: %s" % e)
+                    else:
+                        names = seg.split()
                 n = 0
-                for it in F.items:
-                    if it.kind == "const" and it.body_open is None:
+                for it in items:
+                    if it.kind == "const" and it.body_open is None and (names is None or it.name in names):
                         self._out("pub " + F.clean[F.toks[it.kw].start:F.toks[it.end].end] + "\n", F.path, F.toks[it.kw].start)
                         self.const_records.append({"name": it.name, "file": rel,
                                                    "line": F.src.count("\n", 0, F.toks[it.kw].start) + 1,
@@ -632,6 +646,8 @@ def _invert(toks, emitter):
         elif t == "v_u32_from_le_bytes": out.extend(["u32", ":", ":", "from_le_bytes"])
         elif t == "VErr": out.extend(["Box", "<", "dyn", "Error", ">"])
         elif re.match(r"_v\d+$", t): out.append("_")
+        elif t in ("ff_mac", "ff_adc"):
+            out.extend([":", ":", "ff", ":", ":", "derive", ":", ":", t[3:]])
         elif t in ("v_fp_zero", "v_fp_one") and toks[i + 1:i + 3] == ["(", ")"]:
             out.extend(["Fp", ":", ":", "ZERO" if t == "v_fp_zero" else "ONE"]); i += 3; continue
         elif t == "vpanic" and toks[i + 1:i + 3] == ["(", ")"]:
